@@ -6,6 +6,8 @@ import (
 	"io"
 	"reflect"
 
+	"github.com/philpearl/avro"
+
 	"verifharness/gen"
 	"verifharness/lib"
 )
@@ -15,6 +17,8 @@ type Case struct {
 	IR     *gen.T
 	RT     reflect.Type
 	Encode func(w io.Writer, vals []reflect.Value, cfg lib.EncodeCfg) error
+	// NewSession opens a real Encoder[T] for step-wise use
+	NewSession func(w io.Writer, comp avro.Compression, blockSize int) (lib.Session, error)
 	// Feature: narrow input feature this type exhibits (for quarantine of open findings)
 	Feature string
 }
@@ -23,7 +27,7 @@ var Cases []*Case
 
 func reg[T any](feature ...string) {
 	rt := reflect.TypeFor[T]()
-	c := &Case{Name: rt.Name(), IR: gen.FromReflect(rt), RT: rt, Encode: lib.EncodeStatic[T]}
+	c := &Case{Name: rt.Name(), IR: gen.FromReflect(rt), RT: rt, Encode: lib.EncodeStatic[T], NewSession: lib.NewStaticSession[T]}
 	if len(feature) > 0 {
 		c.Feature = feature[0]
 	}
